@@ -6,7 +6,7 @@
    order1_only=True the corner nodes / truncated rows (theorems C13_effective_...). *)
 From Coq Require Import String ZArith Bool Arith List Lia.
 Import ListNotations.
-From FV.C13 Require Import Model ProofsMat ProofsInc ProofsGraph ProofsTop.
+From FV.C13 Require Import Model ProofsMat ProofsInc ProofsGraph ProofsTop ProofsOrder1.
 Open Scope nat_scope.
 
 (* ------------------------------------------------------------ incidence *)
@@ -66,6 +66,27 @@ Theorem C13_first_order_conn : forall t c c',
   (has2 t = false /\ c' = c) \/ (t = "tet2"%string /\ c' = firstn 4 c)
   \/ (t = "hex2"%string /\ c' = firstn 8 c).
 Proof. exact first_order_conn_cases. Qed.
+
+(* distinct ids of the mesh carry over to the pair the code works on, so
+   `ids_ok m = true` suffices in every theorem of this file *)
+Theorem C13_effective_ids_ok : forall m o m',
+  ids_ok m = true -> effective m o = Some m' -> ids_ok m' = true.
+Proof. exact effective_ids_ok. Qed.
+
+(* order1_only=True on a second-order mesh, stated on the ORIGINAL mesh: row i
+   = the i-th corner node (a node among the first 4 / 8 of some tet2 / hex2
+   row, or any node of a first-order row) in storage order; column j = the
+   element at position j of elements.ids, truncated to its corner nodes *)
+Theorem C13_incidence_order1_spec : forall m Im,
+  ids_ok m = true -> is_first_order (m_blocks m) = false -> incidence m true = Some Im ->
+  exists bs', omap first_order_block (items (m_blocks m)) = Some bs' /\
+    let rows := filter (fun n => zmem n (corner_ids bs')) (m_nodes m) in
+    bnr Im = length rows /\ bnc Im = length (elems_of (m_blocks m)) /\
+    forall i j, entry Im i j = true <->
+      exists nid e e', nth_error rows i = Some nid /\
+                       nth_error (elems_of (m_blocks m)) j = Some e /\
+                       trunc_of (m_blocks m) e e' /\ In nid (snd e').
+Proof. exact incidence_order1_spec. Qed.
 
 (* ------------------------------------------------------------ adjacency *)
 Theorem C13_adj_node_spec : forall m o m' A,
@@ -186,6 +207,7 @@ Example C13_nonvacuous_order1 :
 Proof. eexists. vm_compute. repeat split; reflexivity. Qed.
 
 Print Assumptions C13_incidence_spec.
+Print Assumptions C13_incidence_order1_spec.
 Print Assumptions C13_n_hop_reach.
 Print Assumptions C13_laplacian_spec.
 Print Assumptions C13_edge_gradient_spec.
